@@ -209,6 +209,96 @@ def writes_to_preexisting(r, allowed=()):
     return bad
 
 
+def quantize_frame(run):
+    """quantize(model) never modifies the float tensors it reads: over module trees, no in-place write, attribute store or storage
+    swap on a tensor that existed before the call (module attribute stores - the in-place replacement - are its purpose)."""
+    from props import C08
+    from qvc.nnmodel import named_modules
+
+    for act in (None, "qint8"):
+        for weights in ("qint8", "qint4"):
+            E0 = C08.engine(run)
+            names = [n for n, _ in C08.trees(E0)]
+            for tname in names:
+                if run.tier == "quick" and weights == "qint4" and tname not in ("flat", "derived-classes"):
+                    continue
+                inst = {"lemma": "quantize() frame", "tree": tname, "weights": weights, "activations": act}
+                run.count_instance(**{"qframe_tree": tname, "qframe_w": weights, "qframe_act": act})
+                E = C08.engine(run)
+                qz = E.get(f"{QUANT}::quantize")
+
+                def prog(E2, tname=tname, act=act, weights=weights):
+                    model = dict(C08.trees(E2))[tname]()
+                    mods = named_modules(E2, model)
+                    pre = []
+                    for n, m in mods:
+                        for k, v in list(m.fields.items()) + list((m.fields.get("_parameters") or {}).items() if isinstance(m.fields.get("_parameters"), dict) else []):
+                            if isinstance(v, STensor):
+                                v.fresh = False
+                                v.root().fresh = False
+                                pre.append((f"{n}.{k}", v, list(v.shape), v.root().attrs.get("_version", 0)))
+                    qt = E2.load_module(OC.QTYPE).env.lookup
+                    nw = len(E2.writes)
+                    E2.call(qz, [model], {"weights": qt(weights), "activations": qt(act) if act else None})
+                    return pre, list(E2.writes[nw:])
+
+                tag = f"{tname}/w={weights}/a={act}"
+                try:
+                    res = E.explore(Builtin("qframe", prog), lambda E2: ([], {}), name="C13.quantize-frame")
+                except Unsupported as u:
+                    run.undecide(f"C13/quantize-frame[{tag}]", u, inst)
+                    continue
+                run.absorb(E)
+                if not run.expect_paths(res, f"C13/quantize-frame[{tag}]", inst):
+                    continue
+                rp = lambda m, s, i=dict(inst): replay_quantize_frame(m, s, i)
+                for pi, r in enumerate(res):
+                    if r.outcome != "return":
+                        continue   # C08's business
+                    pre, ws = r.value
+                    bad = []
+                    for w in ws:
+                        kind, target = w[0], w[1]
+                        if kind == "tensor" and isinstance(target, STensor) and not target.root().fresh:
+                            bad.append(f"in-place tensor write to {target.name} at {w[4]}")
+                        elif kind == "tensor-attr" and isinstance(target, STensor) and not target.root().fresh:
+                            bad.append(f"attribute store on tensor {target.name}.{w[2]} at {w[4]}")
+                    run.add(f"C13/quantize-writes-no-preexisting-tensor[{tag}]/path{pi}", r.hyps, z3.BoolVal(not bad), "property", inst, {"writes": bad[:5]}, replay=rp)
+                    same = all(lib_shape_same(v.shape, shp) and v.root().attrs.get("_version", 0) == ver for _, v, shp, ver in pre)
+                    run.add(f"C13/quantize-keeps-shape-and-version-of-float-tensors[{tag}]/path{pi}", r.hyps, z3.BoolVal(bool(same)), "property", inst, replay=rp)
+                    run.add(f"C13/quantize-frame-nonvacuous[{tag}]/path{pi}", r.hyps, z3.BoolVal(len(pre) >= 2), "side", inst)
+
+
+def lib_shape_same(a, b):
+    return len(a) == len(b) and all((x is y) or (z3.is_expr(x) and z3.is_expr(y) and x.eq(y)) or (not z3.is_expr(x) and not z3.is_expr(y) and x == y) for x, y in zip(a, b))
+
+
+def replay_quantize_frame(model, seed, inst):
+    import torch
+    from torch import nn
+    from optimum.quanto import qtypes, quantize
+
+    torch.manual_seed(seed)
+    emb = nn.Embedding(16, 8)
+    head = nn.Linear(8, 16, bias=False)
+    head.weight = emb.weight     # tied weights: the float Parameter is still referenced after the Linear is replaced
+    conv = nn.Conv2d(2, 2, 1)
+    ln = nn.LayerNorm(8)
+    model_ = nn.Sequential(emb, ln, head)
+    keep = {"emb.weight": emb.weight, "conv.weight": conv.weight, "conv.bias": conv.bias, "ln.weight": ln.weight}
+    other = nn.Sequential(conv)
+    before = {k: (v.detach().clone(), v._version) for k, v in keep.items()}
+    act = qtypes[inst["activations"]] if inst["activations"] else None
+    for m_ in (model_, other):
+        quantize(m_, weights=qtypes[inst["weights"]], activations=act)
+    for k, v in keep.items():
+        b, ver = before[k]
+        if tuple(v.shape) != tuple(b.shape) or not torch.equal(v.detach(), b):
+            return {"what": f"quantize() modified the float tensor {k} it read", "shape_before": list(b.shape), "shape_after": list(v.shape)}
+    return None
+
+
+
 def frames(run):
     qt = lambda E, n: E.load_module(OC.QTYPE).env.lookup(n)
     # ---- modules: forward / qweight / freeze
@@ -349,7 +439,7 @@ def build(run):
                 f"{QMOD}::QModuleMixin.qweight", f"{QMOD}::QModuleMixin.freeze", f"{QLIN}::QLinear.qforward", f"{QCONV}::QConv2d.qforward",
                 f"{QLN}::QLayerNorm.qforward", f"{QW}::quantize_weight", f"{QACT}::quantize_activation"):
         run.under_contract(E0, key)
-    for part in (scoping, ext_switch, frames):
+    for part in (scoping, ext_switch, frames, quantize_frame):
         try:
             part(run)
         except Unsupported as u:
@@ -451,6 +541,7 @@ def replay_file(path):
     import json
     rec = json.load(open(path))
     inst = rec["instance"]
-    r = replay_scoping({}, 0, inst) if inst.get("lemma") == "scoping" else replay_frames({}, 0, inst) if inst.get("lemma") == "frame" else None
+    r = replay_scoping({}, 0, inst) if inst.get("lemma") == "scoping" else replay_frames({}, 0, inst) if inst.get("lemma") == "frame" else \
+        replay_quantize_frame({}, 0, inst) if inst.get("lemma") == "quantize() frame" else None
     print(json.dumps(r, indent=1, default=str))
     return 1 if r else 0
